@@ -468,6 +468,7 @@ class Runner(object):
         self.pid = None
         self.prev = None         # (spec, expected outcome) of the previous request
         self.tolerate = None
+        self.slow_failed = False
         self.Ext = None
 
     # -- bookkeeping -----------------------------------------------------------------
@@ -489,6 +490,10 @@ class Runner(object):
             raise Tolerated(self.tolerate)
         self.p.violation(mech, what, self.case())
         raise Stop(mech)
+
+    def soft_violation(self, mech, what):
+        """recorded, but the session goes on so that the consequences for later replies are observed too"""
+        self.p.violation(mech, what, self.case())
 
     # -- life cycle ------------------------------------------------------------------
     def open(self):
@@ -632,6 +637,11 @@ class Runner(object):
                 by = ck if spec['cat'] == 'fault' or not (prev and prev[0]['cat'] == 'fault') else pk
                 self.violation('server-terminated:by=%s' % by,
                                'server process exited (rc=%s) - client got %s(%s) on a %s' % (rc, obs[1], ru.describe(obs[2], 80), where))
+            if spec['cat'] == 'slow':
+                self.soft_violation('slow-request-reported-as-error', 'client raised %s(%s) for a request the server answers after %s s '
+                                    '(in-process value %s); server still alive' % (obs[1], ru.describe(obs[2], 100), spec.get('seconds'), ru.describe(exp[1], 80)))
+                self.slow_failed = True
+                return ('exc', obs[2])
             self.violation('client-raised:%s:at=%s' % (obs[1], ck), 'client raised %s(%s) instead of a reply/Exception on a %s' % (
                 obs[1], ru.describe(obs[2], 120), where))
         if self.sess.wire != (1, 1):
@@ -646,6 +656,11 @@ class Runner(object):
         p.count('replies_compared')
         after = (':after=' + pk) if prev and prev[0]['cat'] == 'fault' else ''
         if exp[0] == 'ok':
+            if obs[0] == 'exc' and spec['cat'] == 'slow':
+                self.soft_violation('slow-request-reported-as-error', '%s: remote raised Exception(%s) for a request the server answers after %s s' % (
+                    where, ru.describe(obs[1], 100), spec.get('seconds')))
+                self.slow_failed = True
+                return ('exc', obs[1])
             if obs[0] == 'exc':
                 if obs[1] == 'Serialize error':
                     self.violation('result-not-serialised:%s%s' % (ck, after), '%s: server could not serialise a result the in-process API returns as %s' % (
@@ -658,12 +673,18 @@ class Runner(object):
                 self.violation('reply-alien-type:%s' % ck, '%s: reply holds a value outside the data model (%s)' % (where, e))
             if got != exp[1]:
                 if prev and prev[1][0] == 'ok' and got == prev[1][1] and prev[1][1] != exp[1]:
+                    if prev[0]['cat'] == 'slow':
+                        self.violation('reply-pairing-shifted-after-slow-request', '%s: got the reply that belongs to the preceding %s s request; '
+                                       'every later reply is one step behind' % (where, prev[0].get('seconds')))
                     self.violation('reply-shifted:after=%s' % pk, '%s: got the reply that belongs to the previous request' % where, content=True)
                 if name == 'lint' and got[0] == 'arr' and any(r[0] == 'arr' and len(r[1]) != 4 for r in got[1]):
                     self.violation('lint-row-width', '%s: lint rows are not cut to 4 fields: %s' % (where, ru.describe(obs[1])))
                 self.violation('reply-differs:%s%s' % (ck, after), '%s: remote %s != in-process %s' % (
                     where, ru.describe(obs[1]), ru.describe(exp[1])), content=True)
             p.count('ok_replies_equal')
+            if spec['cat'] == 'slow':
+                p.count('slow_requests_answered')
+                p.hist('slow_request_seconds', spec.get('seconds'))
             if spec.get('token') or kind.startswith('valid:eval') or kind.startswith('payload:'):
                 p.count('pairing_tokens_checked')
             return ('ok', got)
@@ -822,6 +843,33 @@ def long_history(rng, counter):
 
 
 SIZES = [0, 1, 31, 32, 65535, 65536, 65537, 1 << 20, 8 << 20]
+SLOW_QUICK = [0.5, 2, 6.5]
+SLOW_THOROUGH = [0.5, 2, 6.5, 11, 16]
+
+
+def slow_spec(d, counter):
+    """a request the server needs d seconds for (the sleep is workload; the verdict is still
+    reply == expected value, and the replies after it must still pair with their requests)"""
+    counter[0] += 1
+    tok = 'S%d' % counter[0]
+    return {'m': 'eval', 'args': ["import time\ntime.sleep(%r)\nreturn '%s', 'slept', %r" % (d, tok, d)], 'cat': 'slow',
+            'kind': 'slow:eval-sleep:%s' % d, 'expect': {'value': tup(tok, 'slept', {'$': 'float', 'v': d} if isinstance(d, float) else d)},
+            'seconds': d}
+
+
+def slow_history(d, counter, rng):
+    h = [configure_spec(), echo_spec(counter), gen_api_request(rng, counter), slow_spec(d, counter), echo_spec(counter)]
+    while True:
+        r = gen_api_request(rng, counter)
+        if r['m'] == 'lint':
+            break
+    h += [r, rng_free_fault('unknown-method:str'), echo_spec(counter, rep('p', 200))]
+    while True:
+        r = gen_api_request(rng, counter)
+        if r['m'] == 'assist':
+            break
+    h += [r, echo_spec(counter), PID_SPEC]
+    return h
 
 
 def payload_history(size, counter, big_lint=True):
@@ -873,6 +921,12 @@ def work(arg):
     counter = [w * 1000000]
     rng = random.Random('%s:C15:work:%d' % (seed, w))
 
+    # (s) slow requests: its own work item, so that the sleeping overlaps with everything else
+    if arg.get('slow'):
+        hs = [(('slow', seed, d), slow_history(d, counter, rng)) for d in arg['slow']]
+        isolated_session(part, hs, {'workload': 'slow-requests', 'seed': seed})
+        return part.dump()
+
     # (a) a fresh server: requests before configure, then every fault kind of this worker's
     #     share at every index of short histories
     nbase = arg['bases']
@@ -920,18 +974,22 @@ def work(arg):
 
 
 def main(run):
-    nw = NSERVERS
-    args = [{'seed': run.seed, 'tier': run.tier, 'worker': w, 'workers': nw,
-             'bases': run.pick(2, 3), 'long': run.pick(3, 75)} for w in range(nw)]
-    for a, r in core.pmap('vf.props.c15:work', args, nproc=nw, timeout=run.pick(1800, 6000)):
+    # 16 shares of the work + the slow-request item (first in the queue) on 8 worker processes:
+    # never more than 8 servers at a time
+    nw = 2 * NSERVERS
+    args = [{'seed': run.seed, 'tier': run.tier, 'worker': nw, 'workers': nw, 'slow': run.pick(SLOW_QUICK, SLOW_THOROUGH)}]
+    args += [{'seed': run.seed, 'tier': run.tier, 'worker': w, 'workers': nw,
+              'bases': run.pick(2, 2), 'long': run.pick(2, 38)} for w in range(nw)]
+    for a, r in core.pmap('vf.props.c15:work', args, nproc=NSERVERS, timeout=run.pick(1800, 6000)):
         if isinstance(r, dict) and ('_died' in r or '_timeout' in r or '_error' in r):
             run.inconclusive.append('worker failure on %s: %s' % (json.dumps(a)[:100], json.dumps(r)[:1500]))
         else:
             run.merge(r)
     run.extra['fault_kinds'] = sorted(f['kind'] for f in FAULTS) + sorted(f['kind'] for f in BEFORE_CONFIGURE) + [BROKEN_STR['kind']]
     run.extra['payload_sizes'] = SIZES
-    run.extra['enumerated'] = ('every fault kind above at every index 0..len of %d short base histories per worker (quick: kinds dealt out '
-                               'over the 8 workers; thorough: every worker takes all kinds)' % run.pick(2, 3))
+    run.extra['slow_request_seconds'] = run.pick(SLOW_QUICK, SLOW_THOROUGH)
+    run.extra['enumerated'] = ('every fault kind above at every index 0..len of %d short base histories per work share (quick: kinds dealt out '
+                               'over the 16 work shares; thorough: every share takes all kinds)' % 2)
     run.extra['not_sent'] = 'method names %s (server plumbing / shutdown), BaseException subclasses' % (ru.NEVER_SEND,)
     return run.finish(
         rule='case = one request history sent to a real server subprocess and to the in-process mirror; non-trivial = at least '
@@ -939,7 +997,7 @@ def main(run):
              'the mirror; distinct by (workload, seed, worker, base history, fault kind, index)',
         require=('servers_started', 'replies_compared', 'ok_replies_equal', 'error_replies_equal', 'serialize_error_fallbacks',
                  'liveness_checks', 'pairing_tokens_checked', 'mirror_evaluations', 'fault_kinds_x_indices',
-                 'server_log:request_errors', 'server_log:send_errors'),
+                 'server_log:request_errors', 'server_log:send_errors', 'slow_requests_answered'),
         assumptions=[
             'client and server run the same interpreter with the same PYTHONPATH/PYTHONHASHSEED; generated sources import only the '
             'temp project and stdlib modules that resolve identically in both processes (sys.path[0] differs: /repo/supp vs /verif)',
@@ -952,6 +1010,7 @@ def main(run):
             'switches itself off once MultiName keeps the order it is given',
             'each session runs in a freshly forked harness process, so the mirror process has seen exactly the requests the server process has seen',
             'nesting depth of unserialisable probes >= 3000 (certain RecursionError in dumps at the default recursion limit); no depth between 100 and 3000 is used',
+            'slow requests (server-side time.sleep of 0.5..16 s) are workload only: the verdict is reply == expected value and the pairing of the following replies',
             'one client thread; method names close/run/process/conn/project and BaseExceptions are not sent',
             'a recv blocking > %d s (300 s for the 30000-row lint reply) kills the server and makes the run inconclusive, never a violation' % ru.WATCHDOG_S],
         exhaustive=False)
